@@ -1,5 +1,5 @@
 use crate::line::{LineV, blank_line, blank_cells, cleared, inserted, deleted};
-use crate::buffer::{min_int, max_int, unwrapped, erase_extent, erase_unwraps, ScrollbackLimit};
+use crate::buffer::{min_int, max_int, unwrapped, erase_extent, erase_unwraps, erase_touches_row, lemma_erased_rows_unchanged, ScrollbackLimit};
 use crate::tabs::{tabs_sorted, default_tabs, mult8_in, tabs_below, tabs_upto, lemma_tabs_below_bounds};
 use crate::charset::translate_spec;
 use crate::MEM_MAX;
@@ -163,6 +163,50 @@ impl Terminal {
     /// [C05] where a downward move of n from `row` ends
     pub open spec fn down_target(&self, n: int) -> int {
         if self.cursor.row > self.bottom_margin { min_int(self.cursor.row + n, self.rows - 1) } else { min_int(self.cursor.row + n, self.bottom_margin as int) }
+    }
+
+    // ---- printing (C04) -------------------------------------------------------------------
+    pub open spec fn print_cell(&self, ch: char) -> Cell {
+        Cell(translate_spec(self.charsets[self.active_charset as int], ch), self.pen)
+    }
+
+    /// does this print first perform the deferred wrap?
+    pub open spec fn print_wraps(&self) -> bool { self.auto_wrap_mode && self.pending_wrap }
+
+    /// the wrap happens on the bottom margin: the region scrolls by one
+    pub open spec fn print_scrolls(&self) -> bool { self.print_wraps() && self.cursor.row == self.bottom_margin }
+
+    /// column / row where the character lands
+    pub open spec fn print_col1(&self) -> int { if self.print_wraps() { 0 } else { self.cursor.col as int } }
+
+    pub open spec fn print_row1(&self) -> int {
+        if self.print_wraps() && self.cursor.row != self.bottom_margin && self.cursor.row < self.rows - 1 {
+            self.cursor.row + 1
+        } else {
+            self.cursor.row as int
+        }
+    }
+
+    /// overwrite in the last column, insert or overwrite elsewhere
+    pub open spec fn print_cells(&self, cells: Seq<Cell>, col1: int, cell: Cell) -> Seq<Cell> {
+        if col1 + 1 >= self.cols { cells.update(self.cols - 1, cell) }
+        else if self.insert_mode { inserted(cells, col1, 1, cell) }
+        else { cells.update(col1, cell) }
+    }
+
+    /// view row r (other than the cursor's) after the one-line region scroll caused by a wrap
+    /// on the bottom margin; the row the cursor left keeps its cells
+    pub open spec fn print_scrolled_row(&self, r: int) -> LineV {
+        let top = self.top_margin as int;
+        let bottom = self.bottom_margin as int;
+        if top <= r < bottom {
+            if r + 1 == bottom { LineV { cells: self.buffer.row(bottom).cells@, wrapped: bottom == self.rows - 1 } }
+            else { self.buffer.row(r + 1).v() }
+        } else if r == top - 1 {
+            unwrapped(self.buffer.row(r).v())
+        } else {
+            self.buffer.row(r).v()
+        }
     }
 
     /// the column the cursor is shown in (the wrap-pending position counts as the last column)
